@@ -78,6 +78,8 @@ func c03Creds() []c03Cred {
 		cs = append(cs, c03Cred{"rolecert-inside", a})  // the same from inside (IssuedAt = now)
 	}
 	cs = append(cs, c03Cred{"basic", 0})
+	// an IP-restricted certificate issued by the operator's own client CA (client_ca_filename), not by this keymaster
+	cs = append(cs, c03Cred{"extca-rolecert-inside", 0}, c03Cred{"extca-rolecert-inside", 48 * time.Hour}, c03Cred{"extca-rolecert-outside", 0})
 	return cs
 }
 
@@ -192,6 +194,21 @@ func c03Run(w *vfWorld, p c03Point) c03Verdict {
 			authTime = vclock.Now()
 		} else {
 			req.Remote = "192.168.7.7:5555"
+		}
+	case "extca-rolecert-inside", "extca-rolecert-outside":
+		user = c03AutoUser
+		_, nb, _ := net.ParseCIDR("10.9.0.0/16")
+		der, err := certgen.GenIPRestrictedX509Cert(user, vfKeys.userEC.Public(), vfKeys.adminCACert, vfKeys.adminCA, []net.IPNet{*nb}, maxRoleRequestingCertDuration, nil, nil)
+		vfMust(err)
+		leaf, _ := x509.ParseCertificate(der)
+		vclock.Advance(time.Duration(p.AgeS) * time.Second)
+		req.TLS = w.vfTLSFor(leaf)
+		if p.Cred == "extca-rolecert-inside" {
+			req.Remote = "10.9.3.4:5555"
+			authTime = vclock.Now()
+		} else {
+			req.Remote = "192.168.7.7:5555"
+			authTime = leaf.NotBefore
 		}
 	default:
 		panic("bad cred " + p.Cred)
